@@ -319,7 +319,7 @@ type witness struct {
 func TestC26(t *testing.T) {
 	zerolog.SetGlobalLevel(zerolog.Disabled)
 	run := ev.Start("C26")
-	nbase := run.Pick(2000, 100000)
+	nbase := run.Pick(2000, 40000)
 
 	// field census by reflection: a field the check does not know is a broken run, a hashed field nobody mutated too
 	rt := reflect.TypeOf(pairingtypes.RelayPrivateData{})
